@@ -364,13 +364,18 @@ def main():
     t = time.time()
     rnd_stats = []
 
+    njoint = 1 if QUICK else 4      # extra files of the joint-consensus profile (explicit joint configs, disjoint majorities)
+
     def gen_random(k):
         p = os.path.join(work, "rand-%02d.ndjson" % k)
-        pr = subprocess.run([sim_bin, "random", "-seed", str(SEED * 100 + k), "-runs", str(runs_per), "-events", str(events), "-out", p],
-                            stdout=subprocess.PIPE, stderr=subprocess.STDOUT, text=True, timeout=600)
+        cmd = [sim_bin, "random", "-seed", str(SEED * 100 + k), "-runs", str(runs_per), "-events", str(events), "-out", p]
+        if k >= nfiles:
+            cmd = [sim_bin, "random", "-seed", str(SEED * 100 + k), "-runs", str(48 if QUICK else 120), "-events", "300",
+                   "-profile", "n5-joint", "-out", p]
+        pr = subprocess.run(cmd, stdout=subprocess.PIPE, stderr=subprocess.STDOUT, text=True, timeout=600)
         return p, pr
 
-    for p, pr in pool.map(gen_random, range(nfiles)):
+    for p, pr in pool.map(gen_random, range(nfiles + njoint)):
         if pr.returncode != 0:
             common.die_infra("raftsim random failed:\n" + pr.stdout[-2000:])
         m = re.search(r"^STATS (.*)$", pr.stdout, re.M)
@@ -380,7 +385,7 @@ def main():
     # thorough: big files are split so that monitors run in parallel and TLC memory stays low
     rnd_parts = []
     for p in rnd_files:
-        rnd_parts += split_trace(p, work, os.path.basename(p)[:-7] + "-p", 6000) if not QUICK else [p]
+        rnd_parts += split_trace(p, work, os.path.basename(p)[:-7] + "-p", 6000)
     mon_jobs = [("random", os.path.basename(p), p, pool.submit(run_monitor, p)) for p in rnd_parts]
 
     # ---- 3b. B2: spec-scope random runs validated against EtcdRaft.tla (and monitored like all real runs)
@@ -592,7 +597,7 @@ def main():
         "tlc_simulated_behaviours": sim_total,
         "b2_trace_lines": b2_lines, "b2_trace_lines_matched_by_spec": b2_matched, "b2_traces_accepted": b2_traces, "b2_rejections": len(b2_div),
         "attack_schedules": natk, "attack_rules": sorted(attacks), "attack_steps_not_applicable_on_impl": atk_skipped,
-        "random_runs": nfiles * runs_per, "random_events": ev_stats,
+        "random_runs": nfiles * runs_per + njoint * (48 if QUICK else 120), "random_events": ev_stats,
         "panics_in_library": panics,
         "monitor_rejects_corrupted": corr,
         "spec_action_histogram": hist, "faults_instance": faults_states,
